@@ -332,7 +332,7 @@ def gen_case(rng, thorough=False):
         model=model, names=names, N=N, z0=z0, L=L,
         minC=minC,
         profile=gen_profile(rng, E, z0, L, pk, minC), pkind=pk,
-        bc=bc, bcops=gen_bcops(rng, bc, E), ctor=rng.random() < 0.4,
+        bc=bc, bcops=gen_bcops(rng, bc, E, none_key=rng.random() < 0.2), ctor=rng.random() < 0.4,
         scheme=rng.choice(['euler', 'rk4']), ops=ops,
         temp=[tk, T0, round(rng.uniform(-80, 80), 2), 10 ** rng.uniform(-4, -1) * rng.choice([-1, 1])],
         therm=rng.choice(['const', 'linear', 'table', 'arrhenius']), tseed=rng.getrandbits(32),
